@@ -123,6 +123,18 @@ def shrink(mod, case, fails):
     return cur
 
 
+SHIFT_TZ = "Asia/Kolkata"
+
+
+def _shift_env(mod):
+    """the environment of the second run: diagnostics on, and (unless the property opts out) a process time zone far from
+    UTC - nothing a property states may depend on either"""
+    env = {"VERIF_LOG_DEBUG": "1"}
+    if getattr(mod, "ENV_SHIFT_TZ", True):
+        env["TZ"] = SHIFT_TZ
+    return env
+
+
 def _log_view(mod, case, o):
     """canonical text of the observables that must not depend on the logging level (None: nothing is claimed)"""
     if hasattr(mod, "log_invariant_view"):
@@ -202,7 +214,7 @@ def main():
     if getattr(mod, "LOG_LEVEL_INVARIANT", False):
         stride = max(1, len(cases) // int(getattr(mod, "LOG_SAMPLE", 300)))
         pick = [i for i in range(len(cases)) if i % stride == 0 and obs[i] is not None]
-        dobs, dre = run_driver(mod, [cases[i] for i in pick], pid + "_dbg", extra_env={"VERIF_LOG_DEBUG": "1"})
+        dobs, dre = run_driver(mod, [cases[i] for i in pick], pid + "_dbg", extra_env=_shift_env(mod))
         derrs += ["(logging at DEBUG) " + e for e in dre]
         dbg_obs = {i: o for i, o in zip(pick, dobs) if o is not None}
     if derrs:
@@ -221,7 +233,8 @@ def main():
             base_sigs = {sg for (j, sg, _) in direct_fail if j == i}
             for sig, msg in mod.direct(c, dbg_obs[i]):
                 if sig not in base_sigs:
-                    direct_fail.append((i, sig, "[with every logger at DEBUG and every record formatted] " + msg))
+                    direct_fail.append((i, sig, "[with every logger at DEBUG and every record formatted%s] " %
+                                        (", TZ=" + SHIFT_TZ if getattr(mod, "ENV_SHIFT_TZ", True) else "") + msg))
             # (b) for drivers whose observables are the same from run to run: the observables themselves
             if getattr(mod, "LOG_EXACT", True):
                 a_, b_ = _log_view(mod, c, o), _log_view(mod, c, dbg_obs[i])
@@ -232,7 +245,7 @@ def main():
         # whose observables vary from run to run for other reasons says nothing about the logging level
         sus = log_suspects[:40]
         again, _ = run_driver(mod, [cases[i] for i in sus], pid + "_dbg2", shards=1)
-        dagain, _ = run_driver(mod, [cases[i] for i in sus], pid + "_dbg3", shards=1, extra_env={"VERIF_LOG_DEBUG": "1"})
+        dagain, _ = run_driver(mod, [cases[i] for i in sus], pid + "_dbg3", shards=1, extra_env=_shift_env(mod))
         for i, n2, d2 in zip(sus, again, dagain):
             if n2 is None or d2 is None:
                 continue
@@ -241,7 +254,9 @@ def main():
                 ja, jb = json.loads(a_), json.loads(b_)
                 keys = sorted(k for k in set(ja) | set(jb) if ja.get(k) != jb.get(k)) if isinstance(ja, dict) and isinstance(jb, dict) else []
                 direct_fail.append((i, "depends-on-logging-level", "the same case behaves differently when logging is switched to "
-                                    "DEBUG (every record formatted): observables %s differ; with DEBUG: %s" %
+                                    "DEBUG (every record formatted)" + (" and the process time zone is " + SHIFT_TZ
+                                                                        if getattr(mod, "ENV_SHIFT_TZ", True) else "") +
+                                    ": observables %s differ; there: %s" %
                                     (keys[:5], json.dumps({k: jb.get(k) for k in keys[:2]}, default=str)[:300]
                                      if keys else b_[:300])))
 
